@@ -93,10 +93,18 @@ def check(repo: Repo) -> Result:
                 res.bad(k, f.where, f.msg, f.expected, f.found, rid=r4)
             else:
                 res.ok(k, r4)
-    # Unit.copy rebuilds from str(expr): the expression printer output must be what Unit() parses
+    # Unit.copy: the copy's expression is the original's expression object or its printed text (read back by Unit())
     fn = repo.mod(UO).func("Unit.copy")
-    e = [norm(n.value) for n in walk_no_nested(fn.node) if isinstance(n, ast.Assign) and norm(n.targets[0]) == "expr"]
-    res.check(e == ["str(self.expr)"], "Unit.copy:text", fn.where(), "Unit.copy rebuilds the expression from its canonical text", found=e, rid=r4)
+    ctor = [c for n in walk_no_nested(fn.node) if isinstance(n, ast.Return) and isinstance(n.value, ast.Call) and norm(n.value.func) == "Unit" for c in [n.value]]
+    e = []
+    for c in ctor:
+        a = c.args[0] if c.args else None
+        if isinstance(a, ast.Name):
+            ds = [norm(n.value) for n in walk_no_nested(fn.node) if isinstance(n, ast.Assign) and norm(n.targets[0]) == a.id]
+            e.extend(ds)
+        elif a is not None:
+            e.append(norm(a))
+    res.check(bool(e) and all(x in ("self.expr", "str(self.expr)") for x in e), "Unit.copy:expr", fn.where(), "Unit.copy builds the copy from the original's expression (the object, or its printed text)", "self.expr | str(self.expr)", e, rid=r4)
     return res
 
 
@@ -198,6 +206,18 @@ def rebuilt_from_table(repo, res):
     calls = [c for c in walk_no_nested(dc.node) if isinstance(c, ast.Call) and norm(c.func) == "type(self)"]
     us = kwarg_of(calls[0], "unit_system") if calls else None
     res.check(us is not None and norm(us) == "self.unit_system", "__deepcopy__:unit-system", dc.where(), "a deep copy of a registry must keep its unit system", "unit_system=self.unit_system", norm(us) if us is not None else None, rid=r3)
+    # a restored / copied registry starts with its own, empty unit-string cache and no process-global memo sits
+    # between the persisted (text, table) pair and the unit that is rebuilt from it
+    from rules import memo_rules
+
+    routes = {"unyt_array.__setstate__", "unyt_array.__reduce__", "unyt_array.from_hdf5", "unyt_array.__deepcopy__", "UnitRegistry.from_json", "UnitRegistry.__deepcopy__", "UnitRegistry.to_json", "Unit.copy", "Unit.__deepcopy__", "loadtxt", "savetxt"}
+    n_m = 0
+    for gen in (memo_rules.unit_cache_writers(repo, only_functions=routes), memo_rules.calltime_globals(repo, only_functions=routes)):
+        for key, ok, where, msg, exp, found in gen:
+            n_m += 1
+            res.check(ok, "route:" + key, where, msg, exp, found, rid=r3)
+    if not n_m:
+        res.ok("routes-keep-no-state", r3)
     # from_hdf5: saved custom symbols override defaults (the file stores only non-default symbols)
     fh = repo.mod(ARR).func("unyt_array.from_hdf5")
     t = [norm(s) for s in fh.body]
